@@ -1541,7 +1541,9 @@ def gen_stash_become(seed, mode="loop"):
     sc = Sc(mode, "stash_become seed=%d" % seed)
     driven_skeleton(sc)
     T, S2 = 1, 2
-    sc.mod(T, "target", 0, r.choice([0, 4, 6]))
+    # (a quarter of the targets are M_MOD_DENY_CTX modules: the flag denies the context API to their callbacks, not the
+    # module API - stash / unstash / become / unbecome from their own handlers work like for any other module)
+    sc.mod(T, "target", MOD_DENY_CTX if r.random() < 0.25 else 0, r.choice([0, 4, 6]))
     sc.mod(S2, "sender", 0, 0)
     for k in ("start", "stop"):
         sc.cb(T, k, "*", [], ret=1)
